@@ -35,6 +35,7 @@ pub fn gen(group: &str, rng: &mut Rng, n: usize, out: &mut Vec<String>) {
         "tls" => net::gen_tls(rng, n, out),
         "sync" => synclane::gen(rng, n, out),
         "mt" => mt::gen(rng, n, out),
+        "stall" => mt::gen_stall(rng, n, out),
         _ => panic!("unknown group {}", group),
     }
 }
@@ -51,6 +52,7 @@ pub fn run(lane: &str, args: &[&str]) -> (String, Option<String>) {
         "tls" => net::run_tls(args),
         "sync" => synclane::run(args),
         "mt" => mt::run(args),
+        "stall" => mt::run_stall(args),
         "ctl" | "exop" | "cresp" => ctl::run(lane, args),
         "filter" | "esc" | "utf8" | "entry" | "result" | "helpers" | "url" => textl::run(lane, args),
         _ => ("UNKNOWN-LANE".into(), None),
